@@ -284,3 +284,8 @@ func RunReplay(t *testing.T, reg map[string]func()) {
 		fmt.Println("VREPLAY SCHEDULE: " + s)
 	}
 }
+
+// DecodesTo announces what the next encoding/json Decoder.Decode call yields under gosym (the
+// decoder is an environment stub there). The native run decodes the real bytes; the harness
+// passes bytes that decode to the same value.
+func DecodesTo(v interface{}, err error) {}
